@@ -11,6 +11,10 @@ combine fn=int|twin passed=<name|nil> t=<id> stop=none|af|ids:<id,…> app=<name
      → out=nil|panic|res ctxs=… mons=… queues=<name>:<ids>;…
 oracle combine t=<id> stop=… app=… out=… ctxs=… mons=… queues=…               → true | false <why>
 ```
+After `mode operator` (real operator): the lines of the C04 suite, plus
+```
+oracle merged q=<q> task=<id> pre=<ids> ctxs=<hook's view> queue=<ids>      → true | false <why>
+```
 `combine` answers come from the code-shaped model (`combineGo` / `combineTwin`); `oracle` evaluates
 the property (the `Spec` functions: takeWhile / dropWhile / `Spec.compact`) on the state before the
 last `combine` and on what the implementation returned. -/
@@ -24,6 +28,10 @@ structure St where
   /-- whole-operator cases (C07.6): the `task/begin/end/oracle …` lines of the C04 suite -/
   op : Drv.C04.St := {}
   opMode : Bool := false
+  /-- whole-operator cases: every task as it was declared when it entered the queue (hook, type,
+  allowFailure, group and contexts as the hook *configuration* prescribes them), its contexts
+  extended by those of the tasks merged into it so far (plain concatenation, not compacted) -/
+  decl : List Task := []
 
 def findTask (st : St) (id : Nat) : Option Task := st.tasks.find? (·.id == id)
 
@@ -134,6 +142,32 @@ def oracleUntouched (prev : QSet) (a : CombineArgs) (out : Outcome) (after : Str
     else if after != showQs wantQs then s!"false want-queues={showQs wantQs}"
     else "true"
 
+/-- The property on one execution of a head task by the real operator (every attempt, first run or
+retry). `pre` = ids in the queue when the handler was entered, `ctxs` = what the hook found in its
+context file, `after` = ids in the queue while the hook runs. Evaluated on the tasks *as declared*:
+the hook receives `Spec.compact` of the concatenation, in queue order, of the contexts of the head
+task, of everything merged into it by earlier (failed) attempts and of the run of following tasks of
+the same hook and type (up to the stop rule of `taskHandleHookRun`); exactly that run leaves the
+queue. An ungrouped kubernetes Synchronization head and a v0 hook merge nothing. -/
+def oracleMerged (st : St) (task : Nat) (pre : List Nat) (ctxs : List Ctx) (after : List Nat) : St × String :=
+  match pre.mapM (fun id => st.decl.find? (·.id == id)) with
+  | none => (st, "bad-op undeclared-task")
+  | some [] => (st, "bad-op empty-queue")
+  | some (h :: rest) =>
+    if h.id != task then (st, s!"false not-the-head-task want-task={h.id}")
+    else
+      let ver := st.op.cfg.version h.hook
+      let combine := ver == 1 && shouldCombine h
+      let stop := Drv.C04.codeStopOf h
+      let ms := if combine then Spec.merged h stop rest else []
+      let all := h.ctxs ++ ms.flatMap (·.ctxs)
+      let want := Drv.C04.hookViewV ver (Spec.compact all)
+      let wantQ := (if combine then Spec.remainder h stop rest else h :: rest).map (·.id)
+      let st' := { st with decl := updTask (fun x => { x with ctxs := all }) h.id st.decl }
+      if ctxs != want then (st', s!"false hook-received-other-contexts want={showCtxs want}")
+      else if after != wantQ then (st', s!"false queue-after-merge want={showNats wantQ}")
+      else (st', "true")
+
 def parseOut (rest : List String) : Option Outcome :=
   match kv? "out" rest with
   | some "nil" => some .nil
@@ -146,12 +180,26 @@ def parseOut (rest : List String) : Option Outcome :=
 
 def step (st : St) (toks : List String) : St × String :=
   if st.opMode then
+    match toks with
+    | "oracle" :: "merged" :: rest =>
+      match (kv? "task" rest).bind (·.toNat?), (kv? "pre" rest).bind natList?,
+            (kv? "ctxs" rest).bind parseCtxs, (kv? "queue" rest).bind natList? with
+      | some task, some pre, some ctxs, some after => oracleMerged st task pre ctxs after
+      | _, _, _, _ => (st, "bad-op")
+    | _ =>
     -- whole-operator lines are answered by the retry model of C04 (which embeds `prepareRun`)
     let (op', ans) := Drv.C04.step st.op toks
-    ({ st with op := op' }, ans)
+    let decl := match toks with
+      | "task" :: id :: rest =>
+        match Drv.C04.parseTask id rest with
+        | some t => if st.decl.any (·.id == t.id) then st.decl else t :: st.decl
+        | none => st.decl
+      | _ => st.decl
+    ({ st with op := op', decl := decl }, ans)
   else
   match toks with
   | ["mode", "operator"] => ({ st with opMode := true }, "ok")
+  | ["reset"] => ({}, "ok")          -- a corpus case made of several independent layouts
   | "task" :: id :: rest =>
     match parseTask id rest with
     | some t => ({ st with tasks := t :: st.tasks.filter (·.id != t.id) }, "ok")
